@@ -1,5 +1,5 @@
 (* Proofs/ConflictsProofs.v — the conflict resolver (model instantiated with the regenerated facts). *)
-From SPV Require Import Base.Str Model.OptStr Gen.FactsConflicts.
+From SPV Require Import Base.Str Model.OptStr Gen.FactsConflicts Proofs.OptStrProofs.
 
 Section Generic.
   Variable opts : fw -> list string.
@@ -383,3 +383,321 @@ Section Suffix.
     - rewrite Forall_forall in H0 |- *. intros f Hf. left. now apply H0.
   Qed.
 End Suffix.
+
+(* ====================================================================== *)
+(* An option string identifies one field wrapper; unclashed names stay bare *)
+(* ====================================================================== *)
+Lemma nodup_app_parts {A} (a b : list A) : NoDup (a ++ b) -> NoDup b /\ (forall x, In x a -> In x b -> False).
+Proof.
+  induction a as [|y a IH]; simpl; intros N; [split; [exact N | intros x []]|].
+  inversion N as [|? ? Hy Hr]; subst. destruct (IH Hr) as [Nb D]. split; [exact Nb|].
+  intros x [->|Hx] Hb; [apply Hy; apply in_or_app; now right | exact (D x Hx Hb)].
+Qed.
+
+Lemma in_nth_concat {A} (r : list (list A)) j x : In x (nth j r []) -> In x (List.concat r).
+Proof.
+  intros H. apply in_concat. exists (nth j r []). split; [|exact H].
+  destruct (nth_in_or_default j r []) as [Hin|Hd]; [exact Hin | rewrite Hd in H; contradiction].
+Qed.
+
+Lemma nodup_concat_unique {A} (ls : list (list A)) : forall i j x,
+  NoDup (List.concat ls) -> In x (nth i ls []) -> In x (nth j ls []) -> i = j.
+Proof.
+  induction ls as [|l r IH]; intros i j x N Hi Hj.
+  - destruct i; contradiction.
+  - simpl in N. destruct (nodup_app_parts l (List.concat r) N) as [Nr D].
+    destruct i, j; simpl in Hi, Hj; try reflexivity.
+    + exfalso. exact (D x Hi (in_nth_concat r j x Hj)).
+    + exfalso. exact (D x Hj (in_nth_concat r i x Hi)).
+    + f_equal. exact (IH i j x Nr Hi Hj).
+Qed.
+
+Section Identify.
+  Variable opts : fw -> list string.
+
+  (* after a successful set-up, an option string belongs to exactly one field wrapper *)
+  Theorem option_identifies_field m fs fs' i j o :
+    resolve_gen opts m fs = Ok fs' ->
+    In o (nth i (map opts fs') []) -> In o (nth j (map opts fs') []) -> i = j.
+  Proof.
+    intros H Hi Hj. exact (nodup_concat_unique (map opts fs') i j o (resolve_ok_nodup opts m fs fs' H) Hi Hj).
+  Qed.
+End Identify.
+
+(* ---------- a field whose name clashes with nothing is never part of a conflict ---------- *)
+Lemma NoDup_app_local {A} (a b : list A) : NoDup a -> NoDup b -> (forall x, In x a -> In x b -> False) -> NoDup (a ++ b).
+Proof.
+  induction a as [|y a IH]; simpl; intros Na Nb D; [exact Nb|].
+  inversion Na as [|? ? Hy Hr]; subst. constructor.
+  - intros H. apply in_app_or in H as [H|H]; [contradiction | exact (D y (or_introl eq_refl) H)].
+  - apply IH; auto. intros x Hx Hb. exact (D x (or_intror Hx) Hb).
+Qed.
+
+Lemma has_char_append_c c a b : has_char c (a ++ b) = has_char c a || has_char c b.
+Proof. induction a as [|x r IH]; simpl; [reflexivity | rewrite IH; apply orb_assoc]. Qed.
+
+(* fields as the conflict clauses of C03 see them: no aliases, not positional, no word starting with a dash *)
+Definition plainfw (f : fw) : Prop :=
+  aliases f = [] /\ positional f = false /\ prefixb "-" (name f) = false /\ Forall (fun w => prefixb "-" w = false) (path f).
+
+Lemma plainfw_shape f g : shape f = shape g -> plainfw f -> plainfw g.
+Proof.
+  intros E [A [B [C D]]]. unfold shape, set_pfx in E. injection E as E1 E2 E3 E4.
+  unfold plainfw. rewrite <- E1, <- E2, <- E3, <- E4. auto.
+Qed.
+
+Section Unclashed.
+  Variable opts : fw -> list string.
+  Notation auto_one_g := (auto_one auto_index_gen exhausted_err_gen).
+  Notation auto_all_g := (auto_all auto_index_gen exhausted_err_gen).
+  Notation fix_auto_g := (fix_auto auto_index_gen exhausted_err_gen skip_first_strict_gen).
+  (* what is needed of the option strings: after the dashes comes prefix ++ name; no string twice for one field *)
+  Hypothesis opts_body : forall f o, plainfw f -> suffix_pfx f -> In o (opts f) -> lstrip_dashes o = pfx f ++ name f.
+  Hypothesis opts_nodup : forall f, NoDup (opts f).
+
+  Lemma holders_app o a b : holders o (a ++ b) = (holders o a ++ holders o b)%list.
+  Proof. unfold holders. now rewrite filter_app, map_app. Qed.
+
+  Lemma holders_one o k l : forall i, In i (holders o (map (fun o' => (o', k)) l)) -> i = k /\ In o l.
+  Proof.
+    unfold holders. induction l as [|x r IH]; simpl; intros i H; [contradiction|].
+    destruct (String.eqb x o) eqn:E; simpl in H.
+    - apply String.eqb_eq in E. subst x. destruct H as [<-|H]; [auto|]. destruct (IH i H); auto.
+    - destruct (IH i H); auto.
+  Qed.
+
+  Lemma holders_one_nodup o k l : NoDup l -> NoDup (holders o (map (fun o' => (o', k)) l)).
+  Proof.
+    unfold holders. induction l as [|x r IH]; simpl; intros N; [constructor|].
+    inversion N as [|? ? Hx Hr]; subst. destruct (String.eqb x o) eqn:E; simpl; [|now apply IH].
+    apply String.eqb_eq in E. subst x. constructor; [|now apply IH].
+    intros H. destruct (holders_one o k r k H) as [_ Hin]. contradiction.
+  Qed.
+
+  Lemma holders_spec o fs : forall k i,
+    In i (holders o (index_opts opts k fs)) -> k <= i /\ i - k < List.length fs /\ In o (opts (nth (i - k) fs (mkfw [] "" "" [] false))).
+  Proof.
+    induction fs as [|f r IH]; intros k i H; simpl in H; [contradiction|].
+    rewrite holders_app in H. apply in_app_or in H as [H|H].
+    - destruct (holders_one o k (opts f) i H) as [-> Hin]. rewrite Nat.sub_diag. simpl. repeat split; auto; lia.
+    - destruct (IH (S k) i H) as [A [B C]]. replace (i - k) with (S (i - S k)) by lia. simpl. repeat split; auto; lia.
+  Qed.
+
+  Lemma holders_nodup o fs : forall k, NoDup (holders o (index_opts opts k fs)).
+  Proof.
+    induction fs as [|f r IH]; intros k; simpl; [constructor|].
+    rewrite holders_app. apply NoDup_app_local; [apply holders_one_nodup, opts_nodup | apply IH |].
+    intros i Ha Hb. destruct (holders_one o k (opts f) i Ha) as [-> _]. destruct (holders_spec o r (S k) k Hb). lia.
+  Qed.
+
+  Lemma conflict_members fs o ids :
+    get_conflict opts fs = Some (o, ids) ->
+    NoDup ids /\ 1 < List.length ids /\ forall i, In i ids -> i < List.length fs /\ In o (opts (nth_fw fs i)).
+  Proof.
+    unfold get_conflict. intros H. destruct (first_conflict_some _ _ _ _ H) as [_ [-> L]].
+    split; [apply holders_nodup|]. split; [exact L|]. intros i Hi.
+    destruct (holders_spec o fs 0 i Hi) as [_ [B C]]. rewrite Nat.sub_0_r in B, C. split; [exact B | exact C].
+  Qed.
+
+  Lemma other_member (ids : list nat) i : NoDup ids -> 1 < List.length ids -> In i ids -> exists j, In j ids /\ j <> i.
+  Proof.
+    intros N L Hi. destruct ids as [|a [|b r]]; simpl in L; try lia.
+    inversion N as [|? ? Ha _]; subst.
+    destruct (Nat.eq_dec a i) as [->|Ne].
+    - exists b. split; [simpl; auto|]. intros ->. apply Ha. now left.
+    - exists a. split; [simpl; auto | exact Ne].
+  Qed.
+
+  (* non-interference: indices outside the conflict are not touched *)
+  Lemma nth_update_other fs j f' i : i <> j -> nth_fw (update fs j f') i = nth_fw fs i.
+  Proof.
+    unfold nth_fw. revert i j. induction fs as [|x r IH]; intros i j Ne; destruct j; simpl; try reflexivity.
+    - destruct i; [congruence | reflexivity].
+    - destruct i; [reflexivity|]. apply IH. congruence.
+  Qed.
+
+  Lemma auto_all_other ids : forall fs fs' i, auto_all_g fs ids = Ok fs' -> ~ In i ids -> nth_fw fs' i = nth_fw fs i.
+  Proof.
+    induction ids as [|j r IH]; intros fs fs' i H Hn; simpl in H; [now injection H as <-|].
+    destruct (auto_one_g (nth_fw fs j)) as [f1|]; [|discriminate].
+    rewrite (IH _ _ i H) by (intros X; apply Hn; now right). apply nth_update_other. intros ->. apply Hn. now left.
+  Qed.
+
+  Lemma fix_auto_other fs ids fs' i : fix_auto_g fs ids = Ok fs' -> ~ In i ids -> nth_fw fs' i = nth_fw fs i.
+  Proof.
+    unfold fix_auto. intros H Hn.
+    assert (S : forall x, In x (sort_by (fun k => level (nth_fw fs k)) ids) -> In x ids).
+    { intros x Hx. now apply SPV.Proofs.OptStrProofs.sort_by_In in Hx. }
+    destruct (sort_by _ ids) as [|a [|b r]] eqn:E; try (now injection H as <-).
+    destruct (if skip_first_strict_gen then _ else _).
+    - apply (auto_all_other _ _ _ i H). intros X. apply Hn, S. now right.
+    - apply (auto_all_other _ _ _ i H). intros X. apply Hn, S. exact X.
+  Qed.
+
+  Lemma fold_explicit_other ids : forall fs i, ~ In i ids ->
+    nth_fw (fold_left (fun acc k => update acc k (set_pfx (nth_fw acc k) (explicit_pfx (nth_fw acc k)))) ids fs) i = nth_fw fs i.
+  Proof.
+    induction ids as [|j r IH]; intros fs i Hn; simpl; [reflexivity|].
+    rewrite IH by (intros X; apply Hn; now right). apply nth_update_other. intros ->. apply Hn. now left.
+  Qed.
+
+  Lemma fix_explicit_other fs o ids fs' i : fix_explicit opts fs o ids = Ok fs' -> ~ In i ids -> nth_fw fs' i = nth_fw fs i.
+  Proof.
+    unfold fix_explicit. destruct (existsb _ ids); [discriminate|].
+    destruct (get_conflict opts _) as [[o' x]|]; [destruct (String.eqb o' o); [discriminate|]|];
+      intros H Hn; injection H as <-; now apply fold_explicit_other.
+  Qed.
+
+  Lemma shape_nth fs fs' j : map shape fs' = map shape fs -> shape (nth_fw fs' j) = shape (nth_fw fs j).
+  Proof.
+    intros E. unfold nth_fw.
+    rewrite <- (map_nth shape fs' (mkfw [] "" "" [] false) j), <- (map_nth shape fs (mkfw [] "" "" [] false) j), E. reflexivity.
+  Qed.
+
+  Lemma dotted_has_dot w ws : has_char "."%char (dotted (w :: ws)) = true.
+  Proof. rewrite dotted_cons. rewrite has_char_append_c. simpl. apply orb_true_r. Qed.
+
+  (* the step: with the invariants in place, field i (unique dot-free name, empty prefix) is not in the conflict *)
+  Lemma unclashed_not_in_conflict fs0 fs i o ids :
+    map shape fs = map shape fs0 -> Forall Inv fs -> Forall wf_fw fs0 -> Forall plainfw fs0 ->
+    Forall (fun f => nodot (name f) = true) fs0 ->
+    (forall j, j <> i -> j < List.length fs0 -> name (nth_fw fs0 j) <> name (nth_fw fs0 i)) ->
+    pfx (nth_fw fs i) = "" ->
+    get_conflict opts fs = Some (o, ids) -> ~ In i ids.
+  Proof.
+    intros Sh HI Hwf Hpl Hnd Huniq Hp G Hin.
+    destruct (conflict_members fs o ids G) as [N [L M]].
+    destruct (other_member ids i N L Hin) as [j [Hj Ne]].
+    destruct (M i Hin) as [Li Oi]. destruct (M j Hj) as [Lj Oj].
+    assert (Len : List.length fs = List.length fs0) by (rewrite <- (map_length shape fs), Sh, map_length; reflexivity).
+    assert (Sj := shape_nth fs0 fs j Sh). assert (Si := shape_nth fs0 fs i Sh).
+    assert (PLj : plainfw (nth_fw fs j)).
+    { apply (plainfw_shape (nth_fw fs0 j)); [now symmetry|]. rewrite Forall_forall in Hpl. apply Hpl. unfold nth_fw. apply nth_In. lia. }
+    assert (PLi : plainfw (nth_fw fs i)).
+    { apply (plainfw_shape (nth_fw fs0 i)); [now symmetry|]. rewrite Forall_forall in Hpl. apply Hpl. unfold nth_fw. apply nth_In. lia. }
+    assert (SPi : suffix_pfx (nth_fw fs i)).
+    { exists 0. split; [lia|]. rewrite Nat.sub_0_r, skipn_all. exact Hp. }
+    assert (Nj : name (nth_fw fs j) = name (nth_fw fs0 j)) by (change (name (nth_fw fs j)) with (name (shape (nth_fw fs j))); now rewrite Sj).
+    assert (Ni : name (nth_fw fs i) = name (nth_fw fs0 i)) by (change (name (nth_fw fs i)) with (name (shape (nth_fw fs i))); now rewrite Si).
+    assert (Pj : path (nth_fw fs j) = path (nth_fw fs0 j)) by (change (path (nth_fw fs j)) with (path (shape (nth_fw fs j))); now rewrite Sj).
+    assert (Wj : wf_fw (nth_fw fs j)).
+    { unfold wf_fw. rewrite Pj. rewrite Forall_forall in Hwf. apply Hwf. unfold nth_fw. apply nth_In. lia. }
+    assert (Ij : Inv (nth_fw fs j)) by (rewrite Forall_forall in HI; apply HI; unfold nth_fw; apply nth_In; lia).
+    assert (Ei := opts_body _ _ PLi SPi Oi). assert (Ej := opts_body _ _ PLj (Ij Wj) Oj). rewrite Hp in Ei. simpl in Ei.
+    destruct (Ij Wj) as [k [_ Pk]].
+    assert (Di : has_char "."%char (name (nth_fw fs i)) = false).
+    { rewrite Ni. rewrite Forall_forall in Hnd. assert (X := Hnd (nth_fw fs0 i)). unfold nodot in X. apply negb_true_iff, X.
+      unfold nth_fw. apply nth_In. lia. }
+    rewrite Ei in Ej. rewrite Pk in Ej.
+    destruct (skipn (List.length (path (nth_fw fs j)) - k) (path (nth_fw fs j))) as [|w ws].
+    - simpl in Ej. apply (Huniq j Ne); [lia|]. now rewrite <- Nj, <- Ni.
+    - rewrite Ej, has_char_append_c, dotted_has_dot in Di. discriminate.
+  Qed.
+End Unclashed.
+
+Section UnclashedLoop.
+  Variable opts : fw -> list string.
+  Notation fix_auto_g := (fix_auto auto_index_gen exhausted_err_gen skip_first_strict_gen).
+  Hypothesis opts_body : forall f o, plainfw f -> suffix_pfx f -> In o (opts f) -> lstrip_dashes o = pfx f ++ name f.
+  Hypothesis opts_nodup : forall f, NoDup (opts f).
+
+  (* like loop_invariant, but the step may use the conflict that was detected *)
+  Lemma loop_invariant_conflict (P : list fw -> Prop) m :
+    (m = CRAuto -> forall fs o ids fs', get_conflict opts fs = Some (o, ids) -> fix_auto_g fs ids = Ok fs' -> P fs -> P fs') ->
+    (m = CRExplicit -> forall fs o ids fs', get_conflict opts fs = Some (o, ids) -> fix_explicit opts fs o ids = Ok fs' -> P fs -> P fs') ->
+    forall fuel fs fs', loop_gen opts m fuel fs = Ok fs' -> P fs -> P fs'.
+  Proof.
+    intros HA HE. unfold loop_gen. induction fuel as [|k IH]; intros fs fs' H HP; simpl in H.
+    - destruct (get_conflict opts fs) as [[o ids]|]; [discriminate | now injection H as <-].
+    - destruct (get_conflict opts fs) as [[o ids]|] eqn:G; [|now injection H as <-].
+      destruct m; [discriminate| |].
+      + destruct (fix_explicit opts fs o ids) as [fs1|] eqn:F; [|discriminate].
+        destruct k; [discriminate|]. apply (IH fs1 fs' H). exact (HE eq_refl _ _ _ _ G F HP).
+      + destruct (fix_auto_g fs ids) as [fs1|] eqn:F; [|discriminate].
+        destruct k; [discriminate|]. apply (IH fs1 fs' H). exact (HA eq_refl _ _ _ _ G F HP).
+  Qed.
+
+  (* Absent user-supplied prefixes, a field whose name clashes with nothing keeps its bare name. *)
+  Definition Qinv (fs0 : list fw) (i : nat) (x : list fw) : Prop :=
+    map shape x = map shape fs0 /\ Forall Inv x /\ pfx (nth_fw x i) = "".
+
+  Lemma unclashed_loop m fuel fs fs' i :
+    Forall (fun f => pfx f = "") fs -> Forall wf_fw fs -> Forall plainfw fs -> Forall (fun f => nodot (name f) = true) fs ->
+    (forall j, j <> i -> j < List.length fs -> name (nth_fw fs j) <> name (nth_fw fs i)) ->
+    loop_gen opts m fuel fs = Ok fs' -> Qinv fs i fs'.
+  Proof.
+    intros H0 Hwf Hpl Hnd Huniq H.
+    apply (loop_invariant_conflict (Qinv fs i) m) with (fuel := fuel) (fs := fs); [| |exact H|].
+    - intros _ a o ids b G F [Sh [HI Hp]]. repeat split.
+      + rewrite <- Sh. exact (fix_auto_shape a ids b F).
+      + exact (fix_auto_suffix a ids b HI F).
+      + rewrite (fix_auto_other a ids b i F); [exact Hp|].
+        exact (unclashed_not_in_conflict opts opts_body opts_nodup fs a i o ids Sh HI Hwf Hpl Hnd Huniq Hp G).
+    - intros _ a o ids b G F [Sh [HI Hp]]. repeat split.
+      + rewrite <- Sh. exact (fix_explicit_shape opts a o ids b F).
+      + exact (fix_explicit_suffix opts a o ids b HI F).
+      + rewrite (fix_explicit_other opts a o ids b i F); [exact Hp|].
+        exact (unclashed_not_in_conflict opts opts_body opts_nodup fs a i o ids Sh HI Hwf Hpl Hnd Huniq Hp G).
+    - repeat split.
+      + rewrite Forall_forall in H0 |- *. intros f Hf _. exists 0. split; [lia|].
+        rewrite Nat.sub_0_r, skipn_all. simpl. now apply H0.
+      + unfold nth_fw. destruct (nth_in_or_default i fs (mkfw [] "" "" [] false)) as [Hin| ->]; [|reflexivity].
+        rewrite Forall_forall in H0. now apply H0.
+  Qed.
+
+  Lemma resolve_gen_unfold m fs : resolve_gen opts m fs = loop_gen opts m max_attempts_gen fs.
+  Proof. unfold resolve_gen. reflexivity. Qed.
+
+  Theorem unclashed_bare m fs fs' i :
+    Forall (fun f => pfx f = "") fs -> Forall wf_fw fs -> Forall plainfw fs -> Forall (fun f => nodot (name f) = true) fs ->
+    (forall j, j <> i -> j < List.length fs -> name (nth_fw fs j) <> name (nth_fw fs i)) ->
+    resolve_gen opts m fs = Ok fs' ->
+    pfx (nth_fw fs' i) = "".
+  Proof.
+    intros H0 Hwf Hpl Hnd Huniq H. rewrite resolve_gen_unfold in H.
+    exact (proj2 (proj2 (unclashed_loop m max_attempts_gen fs fs' i H0 Hwf Hpl Hnd Huniq H))).
+  Qed.
+End UnclashedLoop.
+
+(* the option strings of the default configuration (FLAT, underscores, no aliases) have the required shape *)
+Lemma lstrip_dashes_nodash s : prefixb "-" s = false -> lstrip_dashes s = s.
+Proof.
+  destruct s as [|a r]; [reflexivity|]. intros H. unfold lstrip_dashes. simpl. unfold is_dash.
+  destruct (Ascii.eqb_spec a "-"%char) as [->|Ne]; [simpl in H; discriminate H | reflexivity].
+Qed.
+
+Lemma default_opts_body f o :
+  aliases f = [] -> positional f = false -> prefixb "-" (pfx f ++ name f) = false ->
+  In o (option_strings default_cfg_parser f) -> lstrip_dashes o = pfx f ++ name f.
+Proof.
+  intros Ha Hp Hd Hin. apply (option_strings_In default_cfg_parser f o Hp) in Hin.
+  unfold raw_options in Hin. rewrite Hp in Hin. unfold raw_pairs, default_cfg_parser in Hin. simpl in Hin. rewrite Ha in Hin. simpl in Hin.
+  assert (X : forall d, (d = "-" \/ d = "--") -> lstrip_dashes (d ++ pfx f ++ name f) = pfx f ++ name f).
+  { intros d [-> | ->]; simpl; unfold lstrip_dashes; simpl; fold (lstrip_dashes (pfx f ++ name f)); now apply lstrip_dashes_nodash. }
+  unfold dash_for in Hin. destruct (Nat.eqb (String.length (name f)) 1); simpl in Hin.
+  - destruct Hin as [<-|[<-|[]]]; [exact (X "-" (or_introl eq_refl)) | exact (X "--" (or_intror eq_refl))].
+  - destruct Hin as [<-|[]]. exact (X "--" (or_intror eq_refl)).
+Qed.
+
+Lemma plain_suffix_nodash f : plainfw f -> suffix_pfx f -> prefixb "-" (pfx f ++ name f) = false.
+Proof.
+  intros [_ [_ [Hn Hp]]] [k [_ Pk]]. rewrite Pk.
+  assert (Hs : Forall (fun w => prefixb "-" w = false) (skipn (List.length (path f) - k) (path f))).
+  { rewrite Forall_forall in Hp |- *. intros x Hx. apply Hp. rewrite <- (firstn_skipn (List.length (path f) - k) (path f)).
+    apply in_or_app. now right. }
+  destruct (skipn (List.length (path f) - k) (path f)) as [|w ws]; [exact Hn|].
+  inversion Hs as [|? ? Hw _]; subst. rewrite dotted_cons. destruct w as [|a r]; [reflexivity|]. simpl in Hw |- *. exact Hw.
+Qed.
+
+(* C03's clause for the parser's default configuration *)
+Theorem unclashed_bare_default m fs fs' i :
+  Forall (fun f => pfx f = "") fs -> Forall wf_fw fs -> Forall plainfw fs -> Forall (fun f => nodot (name f) = true) fs ->
+  (forall j, j <> i -> j < List.length fs -> name (nth_fw fs j) <> name (nth_fw fs i)) ->
+  resolve_gen (option_strings default_cfg_parser) m fs = Ok fs' ->
+  pfx (nth_fw fs' i) = "".
+Proof.
+  apply unclashed_bare.
+  - intros f o Hpl Hs Hin.
+    apply default_opts_body; [exact (proj1 Hpl) | exact (proj1 (proj2 Hpl)) | exact (plain_suffix_nodash f Hpl Hs) | exact Hin].
+  - intros f. apply option_strings_NoDup.
+Qed.
